@@ -1,0 +1,475 @@
+// Copyright Amazon.com, Inc. or its affiliates. All Rights Reserved.
+// SPDX-License-Identifier: Apache-2.0
+
+//! Verification hooks. This module only exists when the crate is compiled with
+//! `--cfg clock_bound_verif`; it is never part of a normal build.
+//!
+//! The module is a thin interception layer used by an external model checker: every access the
+//! reader and the writer make to the shared memory segment (atomic loads / stores / fences on the
+//! header, copies of the ClockErrorBound record) and every step of the segment initialisation is
+//! reported to a table of function pointers installed by the checker. With no table installed
+//! every operation falls through to the plain std operation, so the crate behaves exactly as in a
+//! normal build.
+
+use std::path::{Path, PathBuf};
+use std::sync::atomic::{AtomicPtr, Ordering as O};
+
+/// Table of callbacks installed by the model checker.
+pub struct Hooks {
+    /// Atomic load: (address, size in bytes, ordering, value currently in memory) -> value the
+    /// load returns.
+    pub load: fn(usize, usize, atomic::Ordering, u64) -> u64,
+    /// Atomic store, called after the store was applied to memory: (address, size, ordering, value)
+    pub store: fn(usize, usize, atomic::Ordering, u64),
+    /// Atomic read-modify-write, called after the operation was applied to memory:
+    /// (address, size, ordering, old value, new value) -> old value the operation returns
+    pub rmw: fn(usize, usize, atomic::Ordering, u64, u64) -> u64,
+    /// Memory fence (the real fence is issued as well).
+    pub fence: fn(atomic::Ordering),
+    /// Non-atomic write into the segment: (destination address, source, length). The hook performs
+    /// the copy.
+    pub data_write: fn(usize, *const u8, usize),
+    /// Non-atomic read from the segment: (source address, destination, length). The hook fills the
+    /// destination.
+    pub data_read: fn(usize, *mut u8, usize),
+    /// A named step of the segment creation / initialisation has completed.
+    pub point: fn(&'static str),
+    /// A segment has been mapped: (address, length, writable).
+    pub map: fn(usize, usize, bool),
+    /// Path substitution for the segment the writer creates.
+    pub remap_path: fn(&Path) -> Option<PathBuf>,
+}
+
+static HOOKS: AtomicPtr<Hooks> = AtomicPtr::new(std::ptr::null_mut());
+
+/// Install a table of hooks (process wide).
+pub fn install(h: &'static Hooks) {
+    HOOKS.store(h as *const Hooks as *mut Hooks, O::SeqCst);
+}
+
+/// Remove the table of hooks.
+pub fn uninstall() {
+    HOOKS.store(std::ptr::null_mut(), O::SeqCst);
+}
+
+#[inline]
+fn hooks_raw() -> Option<&'static Hooks> {
+    let p = HOOKS.load(O::Relaxed);
+    if p.is_null() {
+        None
+    } else {
+        // SAFETY: only ever set from a &'static Hooks
+        Some(unsafe { &*p })
+    }
+}
+
+/// Return the installed hooks, after flushing any write made through a `DerefMut` borrow of a
+/// `MutPtr` (see `scratch`) so that it is reported before the operation that follows it.
+#[inline]
+fn hooks() -> Option<&'static Hooks> {
+    let h = hooks_raw()?;
+    scratch::flush(h);
+    Some(h)
+}
+
+/// Scratch copies handed out by `Deref` / `DerefMut` on the pointer stand-ins, so that plain
+/// dereferences of the segment pointers are reported like the explicit read / write methods.
+mod scratch {
+    use super::Hooks;
+    use std::cell::RefCell;
+
+    const SLOTS: usize = 8;
+    const SLOT_SIZE: usize = 256;
+
+    #[repr(C, align(16))]
+    struct Slot([u8; SLOT_SIZE]);
+
+    struct Pool {
+        slots: Vec<Box<Slot>>,
+        next: usize,
+        /// (segment address, slot index, length) of borrows handed out mutably
+        pending: Vec<(usize, usize, usize)>,
+    }
+
+    thread_local! {
+        static POOL: RefCell<Pool> = RefCell::new(Pool {
+            slots: (0..SLOTS).map(|_| Box::new(Slot([0; SLOT_SIZE]))).collect(),
+            next: 0,
+            pending: Vec::new(),
+        });
+    }
+
+    pub(super) fn flush(h: &Hooks) {
+        let pending: Vec<(usize, *const u8, usize)> = POOL.with(|p| {
+            let mut p = p.borrow_mut();
+            if p.pending.is_empty() {
+                return Vec::new();
+            }
+            let list = std::mem::take(&mut p.pending);
+            list.into_iter()
+                .map(|(addr, slot, len)| (addr, p.slots[slot].0.as_ptr(), len))
+                .collect()
+        });
+        for (addr, src, len) in pending {
+            (h.data_write)(addr, src, len);
+        }
+    }
+
+    /// Fill a fresh slot with the content of the segment at `addr` (through the read hook) and
+    /// return its address; if `writable` the slot is written back by the next `flush`.
+    pub(super) fn borrow(h: &Hooks, addr: usize, len: usize, writable: bool) -> *mut u8 {
+        assert!(len <= SLOT_SIZE, "verif scratch slot too small");
+        let (idx, ptr) = POOL.with(|p| {
+            let mut p = p.borrow_mut();
+            let idx = p.next;
+            p.next = (p.next + 1) % SLOTS;
+            (idx, p.slots[idx].0.as_mut_ptr())
+        });
+        if writable {
+            // a mutable borrow starts from the bytes currently in memory without counting as a
+            // read of the segment by the program
+            // SAFETY: addr..addr+len is inside the mapped segment
+            unsafe { std::ptr::copy_nonoverlapping(addr as *const u8, ptr, len) };
+            POOL.with(|p| p.borrow_mut().pending.push((addr, idx, len)));
+        } else {
+            (h.data_read)(addr, ptr, len);
+        }
+        ptr
+    }
+}
+
+/// Report a named step.
+pub fn point(name: &'static str) {
+    if let Some(h) = hooks() {
+        (h.point)(name)
+    }
+}
+
+/// Report a new mapping of the segment.
+pub fn register_mapping(addr: usize, len: usize, writable: bool) {
+    if let Some(h) = hooks() {
+        (h.map)(addr, len, writable)
+    }
+}
+
+/// Give the checker the opportunity to redirect the segment path.
+pub fn remap_path(path: &Path) -> PathBuf {
+    match hooks().and_then(|h| (h.remap_path)(path)) {
+        Some(p) => p,
+        None => path.to_path_buf(),
+    }
+}
+
+/// Drop-in replacement for the subset of `std::sync::atomic` a segment implementation may use.
+pub mod atomic {
+    use super::hooks;
+    pub use std::sync::atomic::Ordering;
+
+    pub fn fence(order: Ordering) {
+        std::sync::atomic::fence(order);
+        if let Some(h) = hooks() {
+            (h.fence)(order)
+        }
+    }
+
+    pub fn compiler_fence(order: Ordering) {
+        std::sync::atomic::compiler_fence(order);
+    }
+
+    macro_rules! shim {
+        ($name:ident, $ty:ty, $size:expr) => {
+            #[repr(transparent)]
+            #[derive(Debug, Default)]
+            pub struct $name(std::sync::atomic::$name);
+
+            impl $name {
+                pub const fn new(v: $ty) -> Self {
+                    $name(std::sync::atomic::$name::new(v))
+                }
+                pub fn into_inner(self) -> $ty {
+                    self.0.into_inner()
+                }
+                pub fn get_mut(&mut self) -> &mut $ty {
+                    self.0.get_mut()
+                }
+                #[inline]
+                fn addr(&self) -> usize {
+                    self as *const Self as usize
+                }
+                pub fn load(&self, order: Ordering) -> $ty {
+                    let real = self.0.load(order);
+                    match hooks() {
+                        Some(h) => (h.load)(self.addr(), $size, order, real as u64) as $ty,
+                        None => real,
+                    }
+                }
+                pub fn store(&self, v: $ty, order: Ordering) {
+                    self.0.store(v, order);
+                    if let Some(h) = hooks() {
+                        (h.store)(self.addr(), $size, order, v as u64)
+                    }
+                }
+                #[inline]
+                fn rmw(&self, order: Ordering, old: $ty, new: $ty) -> $ty {
+                    match hooks() {
+                        Some(h) => (h.rmw)(self.addr(), $size, order, old as u64, new as u64) as $ty,
+                        None => old,
+                    }
+                }
+                pub fn swap(&self, v: $ty, order: Ordering) -> $ty {
+                    let old = self.0.swap(v, order);
+                    self.rmw(order, old, v)
+                }
+                pub fn fetch_add(&self, v: $ty, order: Ordering) -> $ty {
+                    let old = self.0.fetch_add(v, order);
+                    self.rmw(order, old, old.wrapping_add(v))
+                }
+                pub fn fetch_sub(&self, v: $ty, order: Ordering) -> $ty {
+                    let old = self.0.fetch_sub(v, order);
+                    self.rmw(order, old, old.wrapping_sub(v))
+                }
+                pub fn fetch_or(&self, v: $ty, order: Ordering) -> $ty {
+                    let old = self.0.fetch_or(v, order);
+                    self.rmw(order, old, old | v)
+                }
+                pub fn fetch_and(&self, v: $ty, order: Ordering) -> $ty {
+                    let old = self.0.fetch_and(v, order);
+                    self.rmw(order, old, old & v)
+                }
+                pub fn fetch_xor(&self, v: $ty, order: Ordering) -> $ty {
+                    let old = self.0.fetch_xor(v, order);
+                    self.rmw(order, old, old ^ v)
+                }
+                pub fn compare_exchange(
+                    &self,
+                    current: $ty,
+                    new: $ty,
+                    success: Ordering,
+                    failure: Ordering,
+                ) -> Result<$ty, $ty> {
+                    match self.0.compare_exchange(current, new, success, failure) {
+                        Ok(old) => Ok(self.rmw(success, old, new)),
+                        Err(seen) => Err(match hooks() {
+                            Some(h) => (h.load)(self.addr(), $size, failure, seen as u64) as $ty,
+                            None => seen,
+                        }),
+                    }
+                }
+                pub fn compare_exchange_weak(
+                    &self,
+                    current: $ty,
+                    new: $ty,
+                    success: Ordering,
+                    failure: Ordering,
+                ) -> Result<$ty, $ty> {
+                    self.compare_exchange(current, new, success, failure)
+                }
+            }
+        };
+    }
+
+    shim!(AtomicU8, u8, 1);
+    shim!(AtomicU16, u16, 2);
+    shim!(AtomicU32, u32, 4);
+    shim!(AtomicU64, u64, 8);
+    shim!(AtomicUsize, usize, 8);
+}
+
+/// Stand-in for the `*mut T` through which the writer updates the record in the segment.
+#[repr(transparent)]
+#[derive(Debug)]
+pub struct MutPtr<T>(*mut T);
+
+impl<T> Clone for MutPtr<T> {
+    fn clone(&self) -> Self {
+        *self
+    }
+}
+impl<T> Copy for MutPtr<T> {}
+
+impl<T> MutPtr<T> {
+    pub fn new(p: *mut T) -> Self {
+        MutPtr(p)
+    }
+    pub fn as_ptr(self) -> *mut T {
+        self.0
+    }
+    pub fn is_null(self) -> bool {
+        self.0.is_null()
+    }
+    pub fn cast<U>(self) -> MutPtr<U> {
+        MutPtr(self.0.cast())
+    }
+    #[inline]
+    unsafe fn put(self, src: *const T, count: usize) {
+        match hooks() {
+            Some(h) => (h.data_write)(
+                self.0 as usize,
+                src as *const u8,
+                count * std::mem::size_of::<T>(),
+            ),
+            None => std::ptr::copy_nonoverlapping(src, self.0, count),
+        }
+    }
+    #[inline]
+    unsafe fn get(self) -> T {
+        match hooks() {
+            Some(h) => {
+                let mut out = std::mem::MaybeUninit::<T>::uninit();
+                (h.data_read)(
+                    self.0 as usize,
+                    out.as_mut_ptr() as *mut u8,
+                    std::mem::size_of::<T>(),
+                );
+                out.assume_init()
+            }
+            None => self.0.read_volatile(),
+        }
+    }
+    /// # Safety
+    /// Same contract as `<*mut T>::write`.
+    pub unsafe fn write(self, v: T) {
+        let v = std::mem::ManuallyDrop::new(v);
+        self.put(&*v as *const T, 1)
+    }
+    /// # Safety
+    /// Same contract as `<*mut T>::write_volatile`.
+    pub unsafe fn write_volatile(self, v: T) {
+        self.write(v)
+    }
+    /// # Safety
+    /// Same contract as `<*mut T>::write_unaligned`.
+    pub unsafe fn write_unaligned(self, v: T) {
+        self.write(v)
+    }
+    /// # Safety
+    /// Same contract as `<*mut T>::copy_from_nonoverlapping`.
+    pub unsafe fn copy_from_nonoverlapping(self, src: *const T, count: usize) {
+        self.put(src, count)
+    }
+    /// # Safety
+    /// Same contract as `<*mut T>::copy_from`.
+    pub unsafe fn copy_from(self, src: *const T, count: usize) {
+        self.put(src, count)
+    }
+    /// # Safety
+    /// Same contract as `<*mut T>::read`.
+    pub unsafe fn read(self) -> T {
+        self.get()
+    }
+    /// # Safety
+    /// Same contract as `<*mut T>::read_volatile`.
+    pub unsafe fn read_volatile(self) -> T {
+        self.get()
+    }
+}
+
+impl<T> std::ops::Deref for MutPtr<T> {
+    type Target = T;
+    fn deref(&self) -> &T {
+        match hooks() {
+            // SAFETY: the slot holds size_of::<T>() bytes copied from a valid T
+            Some(h) => unsafe {
+                &*(scratch::borrow(h, self.0 as usize, std::mem::size_of::<T>(), false) as *const T)
+            },
+            // SAFETY: same contract as dereferencing the raw pointer
+            None => unsafe { &*self.0 },
+        }
+    }
+}
+
+impl<T> std::ops::DerefMut for MutPtr<T> {
+    fn deref_mut(&mut self) -> &mut T {
+        match hooks() {
+            // SAFETY: the slot holds size_of::<T>() bytes copied from a valid T
+            Some(h) => unsafe {
+                &mut *(scratch::borrow(h, self.0 as usize, std::mem::size_of::<T>(), true) as *mut T)
+            },
+            // SAFETY: same contract as dereferencing the raw pointer
+            None => unsafe { &mut *self.0 },
+        }
+    }
+}
+
+/// Stand-in for the `*const T` through which the reader copies the record out of the segment.
+#[repr(transparent)]
+#[derive(Debug)]
+pub struct ConstPtr<T>(*const T);
+
+impl<T> Clone for ConstPtr<T> {
+    fn clone(&self) -> Self {
+        *self
+    }
+}
+impl<T> Copy for ConstPtr<T> {}
+
+impl<T> ConstPtr<T> {
+    pub fn new(p: *const T) -> Self {
+        ConstPtr(p)
+    }
+    pub fn as_ptr(self) -> *const T {
+        self.0
+    }
+    pub fn is_null(self) -> bool {
+        self.0.is_null()
+    }
+    pub fn cast<U>(self) -> ConstPtr<U> {
+        ConstPtr(self.0.cast())
+    }
+    #[inline]
+    unsafe fn get_into(self, dst: *mut T, count: usize) {
+        match hooks() {
+            Some(h) => (h.data_read)(
+                self.0 as usize,
+                dst as *mut u8,
+                count * std::mem::size_of::<T>(),
+            ),
+            None => {
+                for i in 0..count {
+                    dst.add(i).write(self.0.add(i).read_volatile())
+                }
+            }
+        }
+    }
+    /// # Safety
+    /// Same contract as `<*const T>::read`.
+    pub unsafe fn read(self) -> T {
+        let mut out = std::mem::MaybeUninit::<T>::uninit();
+        self.get_into(out.as_mut_ptr(), 1);
+        out.assume_init()
+    }
+    /// # Safety
+    /// Same contract as `<*const T>::read_volatile`.
+    pub unsafe fn read_volatile(self) -> T {
+        self.read()
+    }
+    /// # Safety
+    /// Same contract as `<*const T>::read_unaligned`.
+    pub unsafe fn read_unaligned(self) -> T {
+        self.read()
+    }
+    /// # Safety
+    /// Same contract as `<*const T>::copy_to_nonoverlapping`.
+    pub unsafe fn copy_to_nonoverlapping(self, dst: *mut T, count: usize) {
+        self.get_into(dst, count)
+    }
+    /// # Safety
+    /// Same contract as `<*const T>::copy_to`.
+    pub unsafe fn copy_to(self, dst: *mut T, count: usize) {
+        self.get_into(dst, count)
+    }
+}
+
+impl<T> std::ops::Deref for ConstPtr<T> {
+    type Target = T;
+    fn deref(&self) -> &T {
+        match hooks() {
+            // SAFETY: the slot holds size_of::<T>() bytes copied from a valid T
+            Some(h) => unsafe {
+                &*(scratch::borrow(h, self.0 as usize, std::mem::size_of::<T>(), false) as *const T)
+            },
+            // SAFETY: same contract as dereferencing the raw pointer
+            None => unsafe { &*self.0 },
+        }
+    }
+}
